@@ -266,7 +266,8 @@ Why(d, r) ==
        IF ~BitClean(d, b) \/ ~(SLeq(MinRaw(d), raw) /\ SLeq(raw, MaxRaw(d))) THEN "range"
        ELSE IF ~InCfgRange(d, raw) THEN "cfg-range"
        ELSE IF d.vals # <<>> /\ UnsignedKey(d, raw) \notin {SInt(k) : k \in Keys(d)} THEN "not-in-list"
-       ELSE IF ~WithinStep(d, raw, p) THEN "step" ELSE ""
+       \* a number given for a value-list field denotes the key, i.e. the unsigned raw pattern
+       ELSE IF ~WithinStep(d, IF d.vals # <<>> THEN UnsignedKey(d, raw) ELSE raw, p) THEN "step" ELSE ""
 
 WriteSafe(d, r) == Why(d, r) = ""
 
